@@ -42,6 +42,8 @@ CLAIMED = {
          "Signature, Certificate, OfflineSignature, MappingValues/Mapping, KeysAndCert/Destination/RouterIdentity, RouterAddress, RouterInfo, LeaseSet, LeaseSet2, EncryptedLeaseSet. Time-dependent expiry excluded. Three constructor/validator disagreements are recorded as known findings (known_findings.json)."),
  "C17": ("Bounded symbolic model checking through the real net.ParseIP (net/netip) and strconv.Atoi code: host accessor succeeds iff the standard library parses the host option as an IP literal, returns that address, never reaches a name lookup; port accessor iff decimal 1..65535 in canonical form; helpers agree; option lookup by exact key; static key / IV exactly for 32 / 16 bytes.",
          "Host strings of 0..3 bytes (thorough: 4, and 7-byte dotted quads), port strings of 0..5 bytes, all contents; addresses built through NewRouterAddress and through the wire parser. net.ResolveIPAddr is a stub that records whether its argument is an IP literal."),
+ "C02": ("Bounded symbolic model checking against an independent reference written from the I2P 0.9.67 layouts in the harness package (no /repo code): encodings assembled field by field (symbolic contents) must be accepted, consumed exactly and expose every encoded field through the accessors; constructor output is taken apart by reference offsets and compared field by field; mapping encoding and key-block alignment through the C11/C10 reference checks.",
+         "LeaseSet2 (with/without offline block, 0..2 option pairs, 1..2 keys, 0..2 leases), RouterInfo (0..1 addresses, T: 2), LeaseSet, EncryptedLeaseSet, MetaLeaseSet per specification (recorded known finding: the implementation's entry layout deviates), Lease/Lease2, NewLeaseSet2/NewEncryptedLeaseSet encode direction. Semantic validity of key bytes and signatures is not part of the reference."),
 }
 NA_REASON = "check under construction in this session; it will be claimed once its harnesses run clean on the unchanged tree"
 
